@@ -8,9 +8,9 @@ use crate::spec_blake2b::*;
 verus! {
 
 // ---- 128-bit counter ------------------------------------------------------------------------------
-pub proof fn lemma_counter_join(t0: u64, t1: u64)
+pub proof fn lemma_blake2b_counter_join(t0: u64, t1: u64)
     ensures
-        (((t1 as u128) << 64) | t0 as u128) as nat == counter_val(t0, t1),
+        (((t1 as u128) << 64) | t0 as u128) as nat == blake2b_counter(t0, t1),
 {
     let c = ((t1 as u128) << 64) | t0 as u128;
     assert(c == add(mul(t1 as u128, 0x1_0000_0000_0000_0000u128), t0 as u128)) by (bit_vector)
@@ -19,9 +19,9 @@ pub proof fn lemma_counter_join(t0: u64, t1: u64)
     ;
 }
 
-pub proof fn lemma_counter_split(c: u128)
+pub proof fn lemma_blake2b_counter_split(c: u128)
     ensures
-        counter_val(c as u64, (c >> 64) as u64) == c,
+        blake2b_counter(c as u64, (c >> 64) as u64) == c,
 {
     assert((c as u64) as u128 == c % 0x1_0000_0000_0000_0000u128 && ((c >> 64) as u64) as u128 == c
         / 0x1_0000_0000_0000_0000u128) by (bit_vector);
@@ -29,7 +29,7 @@ pub proof fn lemma_counter_split(c: u128)
 
 // ---- compress: work vector initialisation ---------------------------------------------------------
 /// the code's `tv[12] = st[0] ^ IV[4]` ... is the RFC's v[12] ^= t mod 2^64, v[13] ^= t >> 64, v[14] ^= 0xFF..FF if f
-pub proof fn lemma_init_work(h: Seq<u64>, t0: u64, t1: u64, f0: u64, f1: u64, v: Seq<u64>)
+pub proof fn lemma_blake2b_init_work(h: Seq<u64>, t0: u64, t1: u64, f0: u64, f1: u64, v: Seq<u64>)
     requires
         h.len() == 8,
         v.len() == 16,
@@ -42,11 +42,11 @@ pub proof fn lemma_init_work(h: Seq<u64>, t0: u64, t1: u64, f0: u64, f1: u64, v:
         f1 == 0,
         f0 == 0 || f0 == 0xFFFF_FFFF_FFFF_FFFFu64,
     ensures
-        v == init_work(h, counter_val(t0, t1), f0 != 0),
+        v == blake2b_init_work(h, blake2b_counter(t0, t1), f0 != 0),
 {
-    let t = counter_val(t0, t1);
-    assert(t % pow2_64() == t0 as nat);
-    assert((t / pow2_64()) % pow2_64() == t1 as nat);
+    let t = blake2b_counter(t0, t1);
+    assert(t % blake2b_two64() == t0 as nat);
+    assert((t / blake2b_two64()) % blake2b_two64() == t1 as nat);
     let i4 = blake2b_iv(4);
     let i5 = blake2b_iv(5);
     let i6 = blake2b_iv(6);
@@ -56,71 +56,71 @@ pub proof fn lemma_init_work(h: Seq<u64>, t0: u64, t1: u64, f0: u64, f1: u64, v:
     assert(0u64 ^ i6 == i6) by (bit_vector);
     assert(0xFFFF_FFFF_FFFF_FFFFu64 ^ i6 == i6 ^ 0xFFFF_FFFF_FFFF_FFFFu64) by (bit_vector);
     assert(0u64 ^ i7 == i7) by (bit_vector);
-    assert(v =~= init_work(h, t, f0 != 0));
+    assert(v =~= blake2b_init_work(h, t, f0 != 0));
 }
 
 // ---- C08: buffering / held-back last block ------------------------------------------------------
 /// k blocks taken from d, compressed with f = FALSE, counter running from t: what the two loops of `update` do
-pub open spec fn absorb_from(h: Seq<u64>, t: nat, d: Seq<u8>, k: nat) -> Seq<u64>
+pub open spec fn blake2b_absorb_from(h: Seq<u64>, t: nat, d: Seq<u8>, k: nat) -> Seq<u64>
     decreases k,
 {
     if k == 0 {
         h
     } else {
-        compress_rfc(absorb_from(h, t, d, (k - 1) as nat), d.subrange(128 * (k - 1), 128 * k as int), t + 128 * k, false)
+        compress_rfc(blake2b_absorb_from(h, t, d, (k - 1) as nat), d.subrange(128 * (k - 1), 128 * k as int), t + 128 * k, false)
     }
 }
 
 /// (h, t, buf) is the state reached from chaining value `hinit` after the data bytes `data`: all blocks but the
 /// last one are compressed, the last (possibly full!) block is held back in buf; buf is empty only if data is
-pub open spec fn state_rep(h: Seq<u64>, tv: nat, buf: Seq<u8>, hinit: Seq<u64>, data: Seq<u8>) -> bool {
-    let n = blocks_before_last(data.len());
-    &&& h == absorb_blocks(hinit, data, n)
+pub open spec fn blake2b_state_rep(h: Seq<u64>, tv: nat, buf: Seq<u8>, hinit: Seq<u64>, data: Seq<u8>) -> bool {
+    let n = blake2b_blocks_before_last(data.len());
+    &&& h == blake2b_absorb_blocks(hinit, data, n)
     &&& tv == 128 * n
     &&& buf == data.subrange(128 * n as int, data.len() as int)
 }
 
-/// absorb_blocks(.., n) only depends on the first 128 n bytes
-pub proof fn lemma_absorb_blocks_prefix(h: Seq<u64>, d1: Seq<u8>, d2: Seq<u8>, n: nat)
+/// blake2b_absorb_blocks(.., n) only depends on the first 128 n bytes
+pub proof fn lemma_blake2b_absorb_prefix(h: Seq<u64>, d1: Seq<u8>, d2: Seq<u8>, n: nat)
     requires
         128 * n <= d1.len(),
         128 * n <= d2.len(),
         forall|i: int| 0 <= i < 128 * n ==> d1[i] == d2[i],
     ensures
-        absorb_blocks(h, d1, n) == absorb_blocks(h, d2, n),
+        blake2b_absorb_blocks(h, d1, n) == blake2b_absorb_blocks(h, d2, n),
     decreases n,
 {
     hide(compress_rfc);
     if n > 0 {
         let m = (n - 1) as nat;
-        lemma_absorb_blocks_prefix(h, d1, d2, m);
+        lemma_blake2b_absorb_prefix(h, d1, d2, m);
         assert(d1.subrange(128 * m as int, 128 * n as int) =~= d2.subrange(128 * m as int, 128 * n as int));
     }
 }
 
 /// continuing after block n of `data` with k blocks read from d, where d[0 .. 128 k] = data[128 n .. 128 (n + k)]
-pub proof fn lemma_absorb_from_blocks(h: Seq<u64>, data: Seq<u8>, n: nat, d: Seq<u8>, k: nat)
+pub proof fn lemma_blake2b_absorb_from(h: Seq<u64>, data: Seq<u8>, n: nat, d: Seq<u8>, k: nat)
     requires
         128 * (n + k) <= data.len(),
         128 * k <= d.len(),
         forall|i: int| 0 <= i < 128 * k ==> d[i] == data[128 * n + i],
     ensures
-        absorb_from(absorb_blocks(h, data, n), 128 * n, d, k) == absorb_blocks(h, data, n + k),
+        blake2b_absorb_from(blake2b_absorb_blocks(h, data, n), 128 * n, d, k) == blake2b_absorb_blocks(h, data, n + k),
     decreases k,
 {
     hide(compress_rfc);
     if k > 0 {
         let j = (k - 1) as nat;
-        lemma_absorb_from_blocks(h, data, n, d, j);
+        lemma_blake2b_absorb_from(h, data, n, d, j);
         assert(d.subrange(128 * j as int, 128 * k as int) =~= data.subrange(128 * (n + j) as int, 128 * (n + k) as int));
         assert((n + k - 1) as nat == n + j);
         assert(128 * n + 128 * k == 128 * (n + k));
     }
 }
 
-pub proof fn lemma_rep_buf_len(h: Seq<u64>, tv: nat, buf: Seq<u8>, hinit: Seq<u64>, data: Seq<u8>)
+pub proof fn lemma_blake2b_rep_buf_len(h: Seq<u64>, tv: nat, buf: Seq<u8>, hinit: Seq<u64>, data: Seq<u8>)
     requires
-        state_rep(h, tv, buf, hinit, data),
+        blake2b_state_rep(h, tv, buf, hinit, data),
     ensures
         buf.len() <= 128,
         tv + buf.len() == data.len(),
@@ -129,43 +129,43 @@ pub proof fn lemma_rep_buf_len(h: Seq<u64>, tv: nat, buf: Seq<u8>, hinit: Seq<u6
 }
 
 /// `update`, first branch: the input still fits into the buffer
-pub proof fn lemma_rep_append_small(h: Seq<u64>, tv: nat, buf: Seq<u8>, hinit: Seq<u64>, data: Seq<u8>, input: Seq<u8>)
+pub proof fn lemma_blake2b_rep_append_small(h: Seq<u64>, tv: nat, buf: Seq<u8>, hinit: Seq<u64>, data: Seq<u8>, input: Seq<u8>)
     requires
-        state_rep(h, tv, buf, hinit, data),
+        blake2b_state_rep(h, tv, buf, hinit, data),
         buf.len() + input.len() <= 128,
     ensures
-        state_rep(h, tv, buf + input, hinit, data + input),
+        blake2b_state_rep(h, tv, buf + input, hinit, data + input),
 {
     hide(compress_rfc);
-    let n = blocks_before_last(data.len());
+    let n = blake2b_blocks_before_last(data.len());
     let d2 = data + input;
     if input.len() == 0 {
         assert(d2 =~= data);
         assert(buf + input =~= buf);
     } else {
-        assert(blocks_before_last(d2.len()) == n);
-        lemma_absorb_blocks_prefix(hinit, data, d2, n);
+        assert(blake2b_blocks_before_last(d2.len()) == n);
+        lemma_blake2b_absorb_prefix(hinit, data, d2, n);
         assert(buf + input =~= d2.subrange(128 * n as int, d2.len() as int));
     }
 }
 
 /// block counting of `update`'s second branch (pure arithmetic)
-pub proof fn lemma_update_counts(len: nat, b: nat, m: nat, start: int, c1: nat, c2: nat)
+pub proof fn lemma_blake2b_update_counts(len: nat, b: nat, m: nat, start: int, c1: nat, c2: nat)
     requires
-        b == len - 128 * blocks_before_last(len),
+        b == len - 128 * blake2b_blocks_before_last(len),
         b + m > 128,
         start == (if 0 < b < 128 { 128 - b } else { 0 }),
         c1 == (if b > 0 { 1nat } else { 0nat }),
-        c2 == blocks_before_last((m - start) as nat),
+        c2 == blake2b_blocks_before_last((m - start) as nat),
     ensures
         b <= 128,
         0 <= start < m,
         start + 128 * c2 < m,
         m - (start + 128 * c2) <= 128,
-        blocks_before_last(len + m) == blocks_before_last(len) + c1 + c2,
+        blake2b_blocks_before_last(len + m) == blake2b_blocks_before_last(len) + c1 + c2,
         b > 0 ==> b + start == 128,
 {
-    let n = blocks_before_last(len);
+    let n = blake2b_blocks_before_last(len);
     let r = (m - start) as nat;
     if len > 0 {
         assert(len - 1 == 128 * n + (len - 1) % 128);
@@ -176,7 +176,7 @@ pub proof fn lemma_update_counts(len: nat, b: nat, m: nat, start: int, c1: nat, 
         // len + m = 128 (n + 1) + r
         assert(len + m - 1 == 128 * (n + 1) + (r - 1));
         assert((len + m - 1) / 128 == n + 1 + (r - 1) / 128) by {
-            lemma_div_add_multiple((r - 1) as int, (n + 1) as int);
+            lemma_b2_div_add_multiple((r - 1) as int, (n + 1) as int);
         }
     } else {
         assert(len == 0 && n == 0);
@@ -184,7 +184,7 @@ pub proof fn lemma_update_counts(len: nat, b: nat, m: nat, start: int, c1: nat, 
 }
 
 /// the three-way choice of `end` in `update` is start + 128 * (number of blocks before the last one of the rest)
-pub proof fn lemma_update_end(len: int, start: int, end: int)
+pub proof fn lemma_blake2b_update_end(len: int, start: int, end: int)
     requires
         0 <= start < len,
         end == (if len - start > 128 && (len - start) % 128 == 0 {
@@ -195,7 +195,7 @@ pub proof fn lemma_update_end(len: int, start: int, end: int)
             start
         }),
     ensures
-        end == start + 128 * blocks_before_last((len - start) as nat),
+        end == start + 128 * blake2b_blocks_before_last((len - start) as nat),
         start <= end < len,
         (end - start) % 128 == 0,
 {
@@ -204,7 +204,7 @@ pub proof fn lemma_update_end(len: int, start: int, end: int)
     assert(r - 1 == 128 * ((r - 1) / 128) + (r - 1) % 128);
 }
 
-pub proof fn lemma_div_add_multiple(x: int, q: int)
+pub proof fn lemma_b2_div_add_multiple(x: int, q: int)
     requires
         x >= 0,
         q >= 0,
@@ -214,7 +214,7 @@ pub proof fn lemma_div_add_multiple(x: int, q: int)
 }
 
 /// where the bytes that `update`'s second branch compresses / keeps sit in data ++ input (pure sequence facts)
-pub proof fn lemma_update_layout(data: Seq<u8>, input: Seq<u8>, buf: Seq<u8>, filled: Seq<u8>, n: nat, start: int, end: int, c1: nat, c2: nat)
+pub proof fn lemma_blake2b_update_layout(data: Seq<u8>, input: Seq<u8>, buf: Seq<u8>, filled: Seq<u8>, n: nat, start: int, end: int, c1: nat, c2: nat)
     requires
         data.len() == 128 * n + buf.len(),
         buf == data.subrange(128 * n as int, data.len() as int),
@@ -253,7 +253,7 @@ pub proof fn lemma_update_layout(data: Seq<u8>, input: Seq<u8>, buf: Seq<u8>, fi
 
 /// `update`, second branch: top up the buffer (start), compress it, compress the blocks input[start..end], keep the
 /// rest; `end` is such that at least one byte and at most one full block are kept
-pub proof fn lemma_rep_append_big(
+pub proof fn lemma_blake2b_rep_append_big(
     h: Seq<u64>,
     tv: nat,
     buf: Seq<u8>,
@@ -267,16 +267,16 @@ pub proof fn lemma_rep_append_big(
     h2: Seq<u64>,
 )
     requires
-        state_rep(h, tv, buf, hinit, data),
+        blake2b_state_rep(h, tv, buf, hinit, data),
         buf.len() + input.len() > 128,
         start == (if 0 < buf.len() < 128 { 128 - buf.len() } else { 0 }),
         filled == (if 0 < buf.len() < 128 { buf + input.subrange(0, start) } else { buf }),
-        end == start + 128 * blocks_before_last((input.len() - start) as nat),
-        h1 == absorb_from(h, tv, filled, filled.len() / 128),
-        h2 == absorb_from(h1, tv + 128 * (filled.len() / 128), input.subrange(start, end), ((end - start) / 128) as nat),
+        end == start + 128 * blake2b_blocks_before_last((input.len() - start) as nat),
+        h1 == blake2b_absorb_from(h, tv, filled, filled.len() / 128),
+        h2 == blake2b_absorb_from(h1, tv + 128 * (filled.len() / 128), input.subrange(start, end), ((end - start) / 128) as nat),
     ensures
         0 <= start <= end < input.len(),
-        state_rep(
+        blake2b_state_rep(
             h2,
             (tv + 128 * (filled.len() / 128) + (end - start)) as nat,
             input.subrange(end, input.len() as int),
@@ -285,45 +285,45 @@ pub proof fn lemma_rep_append_big(
         ),
 {
     hide(compress_rfc);
-    let n = blocks_before_last(data.len());
+    let n = blake2b_blocks_before_last(data.len());
     let d2 = data + input;
     let c1: nat = if buf.len() > 0 { 1 } else { 0 };
     let r = (input.len() - start) as nat;
-    let c2 = blocks_before_last(r);
-    lemma_update_counts(data.len(), buf.len(), input.len(), start, c1, c2);
-    lemma_update_layout(data, input, buf, filled, n, start, end, c1, c2);
+    let c2 = blake2b_blocks_before_last(r);
+    lemma_blake2b_update_counts(data.len(), buf.len(), input.len(), start, c1, c2);
+    lemma_blake2b_update_layout(data, input, buf, filled, n, start, end, c1, c2);
     assert(filled.len() / 128 == c1);
     assert((end - start) / 128 == c2) by {
-        lemma_div_add_multiple(0, c2 as int);
+        lemma_b2_div_add_multiple(0, c2 as int);
     }
     assert(d2.len() == data.len() + input.len());
-    lemma_absorb_blocks_prefix(hinit, data, d2, n);
-    lemma_absorb_from_blocks(hinit, d2, n, filled, c1);
-    assert(h1 == absorb_blocks(hinit, d2, n + c1));
+    lemma_blake2b_absorb_prefix(hinit, data, d2, n);
+    lemma_blake2b_absorb_from(hinit, d2, n, filled, c1);
+    assert(h1 == blake2b_absorb_blocks(hinit, d2, n + c1));
     assert(tv + 128 * c1 == 128 * (n + c1));
-    lemma_absorb_from_blocks(hinit, d2, n + c1, input.subrange(start, end), c2);
-    assert(h2 == absorb_blocks(hinit, d2, n + c1 + c2));
-    assert(blocks_before_last(d2.len()) == n + c1 + c2);
+    lemma_blake2b_absorb_from(hinit, d2, n + c1, input.subrange(start, end), c2);
+    assert(h2 == blake2b_absorb_blocks(hinit, d2, n + c1 + c2));
+    assert(blake2b_blocks_before_last(d2.len()) == n + c1 + c2);
 }
 
 // ---- output serialisation -------------------------------------------------------------------------
-pub proof fn lemma_nat_to_le_len(v: nat, n: nat)
+pub proof fn lemma_b2_nat_to_le_len(v: nat, n: nat)
     ensures
         nat_to_le(v, n).len() == n,
     decreases n,
 {
     if n > 0 {
-        lemma_nat_to_le_len(v / 256, (n - 1) as nat);
+        lemma_b2_nat_to_le_len(v / 256, (n - 1) as nat);
     }
 }
 
 /// b is the concatenation of the 8-byte little-endian encodings of the words of h
-pub proof fn lemma_words_to_bytes(h: Seq<u64>, b: Seq<u8>)
+pub proof fn lemma_blake2b_words_to_bytes(h: Seq<u64>, b: Seq<u8>)
     requires
         b.len() == 8 * h.len(),
         forall|i: int| 0 <= i < h.len() ==> #[trigger] b.subrange(8 * i, 8 * i + 8) == nat_to_le(h[i] as nat, 8),
     ensures
-        b == words_to_bytes(h),
+        b == blake2b_words_to_bytes(h),
     decreases h.len(),
 {
     if h.len() == 0 {
@@ -334,21 +334,33 @@ pub proof fn lemma_words_to_bytes(h: Seq<u64>, b: Seq<u8>)
         assert forall|i: int| 0 <= i < h1.len() implies #[trigger] b1.subrange(8 * i, 8 * i + 8) == nat_to_le(h1[i] as nat, 8) by {
             assert(b1.subrange(8 * i, 8 * i + 8) =~= b.subrange(8 * (i + 1), 8 * (i + 1) + 8));
         }
-        lemma_words_to_bytes(h1, b1);
+        lemma_blake2b_words_to_bytes(h1, b1);
         assert(b.subrange(8 * 0int, 8 * 0int + 8) == nat_to_le(h[0] as nat, 8));
         assert(b =~= b.subrange(0, 8) + b1);
     }
 }
 
-pub proof fn lemma_words_to_bytes_len(h: Seq<u64>)
+pub proof fn lemma_blake2b_words_to_bytes_len(h: Seq<u64>)
     ensures
-        words_to_bytes(h).len() == 8 * h.len(),
+        blake2b_words_to_bytes(h).len() == 8 * h.len(),
     decreases h.len(),
 {
     if h.len() > 0 {
-        lemma_nat_to_le_len(h[0] as nat, 8);
-        lemma_words_to_bytes_len(h.subrange(1, h.len() as int));
+        lemma_b2_nat_to_le_len(h[0] as nat, 8);
+        lemma_blake2b_words_to_bytes_len(h.subrange(1, h.len() as int));
     }
+}
+
+/// the digest has `outlen` bytes (outlen <= 64)
+pub proof fn lemma_blake2b_rfc_len(outlen: nat, key: Seq<u8>, salt: Seq<u8>, personal: Seq<u8>, msg: Seq<u8>)
+    requires
+        outlen <= 64,
+    ensures
+        blake2b_rfc_full(outlen, key, salt, personal, msg).len() == 64,
+        blake2b_rfc(outlen, key, salt, personal, msg).len() == outlen,
+{
+    hide(blake2b_rounds);
+    lemma_blake2b_words_to_bytes_len(blake2b_final_h(outlen, key, salt, personal, msg));
 }
 
 } // verus!
